@@ -168,3 +168,24 @@ def judge(matches, spec, ascii_, wide, fullword, buflen):
             if must:
                 viol.append("missed fullword match at offset %d (all admissible lengths %s are delimited)" % (o, sorted(allm)[:12]))
     return viol, known
+
+
+# ---------------------------------------------------------------- robust running (a crashing case must not hide the others)
+def run_robust(core, cmd, cases, jobs=None):
+    """like core.run_parallel, but when a process dies the cases without output are re-run one by one.
+    Returns (outputs keyed by id, crashers [(case_line, rc, stderr)])"""
+    out, rc, err = core.run_parallel(cmd, cases, jobs=jobs)
+    omap = {l.split(" ", 1)[0]: l for l in out}
+    crashers = []
+    if rc != 0:
+        missing = [c for c in cases if c.split(" ", 1)[0] not in omap]
+        from concurrent.futures import ThreadPoolExecutor
+        def one(c):
+            return c, core.run_lines(cmd, [c], timeout=120)
+        with ThreadPoolExecutor(16) as ex:
+            for c, (o, r1, e1) in ex.map(one, missing):
+                if o:
+                    omap[c.split(" ", 1)[0]] = o[0]
+                if r1 != 0:
+                    crashers.append((c, r1, e1))
+    return omap, crashers
